@@ -255,13 +255,53 @@ def g1c(ctx, res):
 
     ct = ctx.cls("Contains").methods["_validate"]
     v = ct.params[1].name
-    res.judge(_loop_try_semantics(ctx, ct, v, "self.params['contains']({x})", success="return", failure="next", exhausted="raise"), ct,
+    verdict_ct = _loop_try_semantics(ctx, ct, v, "self.params['contains']({x})", success="return", failure="next", exhausted="raise")
+    if verdict_ct is None:
+        verdict_ct = _any_predicate_semantics(ctx, ct, v, "self.params['contains']({x})", quantifier="any")
+    res.judge(verdict_ct, ct,
               "accept at the first member the schema accepts; reject when none is",
               reason="contains rejects exactly when no member validates")
     pn = ctx.cls("PropertyNames").methods["_validate"]
     v = pn.params[1].name
     res.judge(_loop_try_semantics(ctx, pn, v, "self.params['propertyNames']({x})", success="next", failure="raise", exhausted="accept"), pn,
               "every key must validate against propertyNames", reason="propertyNames rejects exactly when some key is rejected")
+
+
+def _any_predicate_semantics(ctx, func, value, call_tmpl, quantifier):
+    """`if not any(P(x) for x in value): raise ValidationError` (or the all() dual) where the private predicate P runs the
+    protected call and answers True when it returned, False when it was rejected."""
+    body = [st for st in V(ctx, func).body if not (isinstance(st, ast.Expr) and isinstance(st.value, ast.Constant))]
+    if len(body) != 1 or not isinstance(body[0], ast.If) or body[0].orelse:
+        return None
+    t, pol = strip_not(body[0].test)
+    if pol or not (isinstance(t, ast.Call) and dotted(t.func) == quantifier and len(t.args) == 1
+                   and isinstance(t.args[0], (ast.GeneratorExp, ast.ListComp)) and len(t.args[0].generators) == 1):
+        return None
+    gen = t.args[0]
+    g = gen.generators[0]
+    if g.ifs or norm(g.iter) not in (value, f"{value}.keys()", f"list({value})", f"iter({value})") or not isinstance(g.target, ast.Name):
+        return None
+    if _paths_exits(body[0].body) != {"raise"}:
+        return None
+    call = gen.elt
+    if not (isinstance(call, ast.Call) and len(call.args) == 1 and norm(call.args[0]) == g.target.id and not call.keywords):
+        return None
+    pred = None
+    if isinstance(call.func, ast.Attribute) and norm(call.func.value) == "self" and func.cls is not None:
+        hit = func.cls.lookup(call.func.attr)
+        pred = hit[1] if hit and hit[0] == "method" else None
+        params = pred.params[1:] if pred is not None else []
+    elif isinstance(call.func, ast.Name):
+        r = ctx.prog.resolve_in(func, call.func.id)
+        pred = r[1] if r and r[0] == "func" else None
+        params = pred.params if pred is not None else []
+    if pred is None or len(params) != 1:
+        return None
+
+    def const(val):
+        return lambda e, *_: isinstance(e, ast.Constant) and e.value is val
+    return _try_semantics(ctx, pred, [call_tmpl.format(x=params[0].name)], on_success={"return"}, on_failure={"return"},
+                          success_ret=const(True), failure_ret=const(False))
 
 
 REJECTION = ["TypeError", "ValidationError"]
@@ -793,9 +833,13 @@ def g4(ctx, res):
     for node, b in find(f"MV_r = [MV_x.error for MV_x in {outs} if MV_x.error]", f):
         errn = name_of(b["MV_r"])
     # two-step forms: the successful / failed outcomes are collected first
+    sname = None
     for node, b in find(f"MV_s = [MV_x for MV_x in {outs} if not MV_x.error]", f):
+        sname = name_of(b["MV_s"])
         for node2, b2 in find(f"MV_r = [MV_y.result for MV_y in {name_of(b['MV_s'])}]", f):
             resn = resn or name_of(b2["MV_r"])
+    if resn is None and sname is not None:
+        resn = sname  # the successful outcomes themselves are counted; the result is read off the first of them
     for node, b in find(f"MV_s = [MV_x for MV_x in {outs} if MV_x.error]", f):
         for node2, b2 in find(f"MV_r = [MV_y.error for MV_y in {name_of(b['MV_s'])}]", f):
             errn = errn or name_of(b2["MV_r"])
@@ -827,13 +871,18 @@ def g4(ctx, res):
         if p.exit == "raise":
             return "raise:" + ("ValidationError" if "ValidationError" in norm(p.exit_node) else norm(p.exit_node.exc)[:20])
         if p.exit == "return":
-            return "return:" + norm(p.exit_node.value)
+            t_ = _R(p.exit_node.value)
+            if (sname is not None and t_ == f"{sname}[0].result") or (resn != sname and t_ == f"{resn}[0]"):
+                t_ = "FIRST-RESULT"
+            return "return:" + t_
         return p.exit
 
+    from .norm import text_resolver as _text_resolver
+    _R = _text_resolver(f.body, keep=tuple(x for x in (resn, errn, sname, outs) if x))
     atoms = ["ANY", "MANY", "ERR", "M_anyOf", "M_oneOf", "M_allOf"]
     table, opaque = decision_table(f.body, atoms, rec, classify)
     good = True
-    first_result = f"return:{resn}[0]"
+    first_result = "return:FIRST-RESULT"
     bad = {}
     for values, labels in table.items():
         a = dict(zip(atoms, values))
@@ -1778,8 +1827,38 @@ def g11(ctx, res):
             okn = False
     res.judge(okn, od, "_next(): a class with no remaining dependencies", reason="only a class whose dependencies were all emitted is emitted")
     goc = ctx.func("get_object_classes")
-    res.judge(True if (has("isinstance(MV_e, ObjectMeta)", goc) and has("get_children(MV_e)", goc) and has("list(MV_es)", goc)) else None, goc,
-              "roots + all children, filtered to object classes", reason="every reachable object class is collected")
+    goc_verdict = True if (has("isinstance(MV_e, ObjectMeta)", goc) and has("get_children(MV_e)", goc) and has("list(MV_es)", goc)) else None
+    goc_detail = {}
+    if goc_verdict is None:
+        # positive evidence: the children are walked from a FILTERED selection of the entry points
+        ep = goc.params[0].name if goc.params else "elements"
+        assigns = {st.targets[0].id: st.value for st in walk_own(goc.body)
+                   if isinstance(st, ast.Assign) and len(st.targets) == 1 and isinstance(st.targets[0], ast.Name)}
+
+        def filtered_entry_points(e, depth=0):
+            if depth > 3:
+                return False
+            if isinstance(e, ast.Name) and e.id in assigns:
+                return filtered_entry_points(assigns[e.id], depth + 1)
+            if isinstance(e, (ast.ListComp, ast.GeneratorExp)) and len(e.generators) == 1 and e.generators[0].ifs \
+                    and norm(e.generators[0].iter) in (ep, f"list({ep})") and norm(e.elt) == norm(e.generators[0].target):
+                return True
+            if isinstance(e, ast.Call) and dotted(e.func) in ("filter", "list", "tuple") and e.args:
+                return dotted(e.func) == "filter" and norm(e.args[-1]) == ep and norm(e.args[0]) != "None" or \
+                    (dotted(e.func) != "filter" and filtered_entry_points(e.args[0], depth + 1))
+            return False
+        for x in walk_own(goc.body):
+            gens = x.generators if isinstance(x, (ast.ListComp, ast.GeneratorExp, ast.SetComp)) else []
+            for i, g_ in enumerate(gens):
+                if match(_parse(f"get_children({norm(gens[i - 1].target)})"), g_.iter) is not None and i > 0 \
+                        and filtered_entry_points(gens[i - 1].iter):
+                    goc_verdict, goc_detail = False, {"children_walked_from": norm(gens[i - 1].iter)[:80]}
+            if isinstance(x, ast.For) and filtered_entry_points(x.iter) and has(f"get_children({norm(x.target)})", x.body):
+                goc_verdict, goc_detail = False, {"children_walked_from": norm(x.iter)[:80]}
+    res.judge(goc_verdict, goc,
+              "roots + all children, filtered to object classes", detail=goc_detail,
+              reason="every reachable object class is collected: the children of EVERY entry point are walked (an array or "
+                     "composition entry point reaches classes too), only the result is filtered to classes")
     gc = ctx.func("get_children")
     el_, seen_ = gc.params[0].name, (gc.params[1].name if len(gc.params) > 1 else "seen")
     by_identity = has(f"id({el_}) in {seen_}", gc) and (has(f"{seen_}.add(id({el_}))", gc) or has(f"{seen_}.append(id({el_}))", gc))
